@@ -12,23 +12,23 @@ Theorem C03_latest_of_history :
 Proof. exact latest_of_history. Qed.
 
 (* the registry-declared tag wins *)
-Theorem C03_tag_first : forall ign e v, a_tag_of s_latest e = Some v -> a_latest ign e = Some v.
+Theorem C03_tag_first : forall ign e v, a_tag_of tag_latest e = Some v -> a_latest ign e = Some v.
 Proof. exact latest_tag_first. Qed.
 
 (* always a member of what the registry reported *)
 Theorem C03_member :
-  forall ign e v, a_latest ign e = Some v -> a_tag_of s_latest e = Some v \/ In v (a_versions_of e).
+  forall ign e v, a_latest ign e = Some v -> a_tag_of tag_latest e = Some v \/ In v (a_versions_of e).
 Proof. exact latest_member. Qed.
 
 (* without a tag: parsable, never a prerelease when prereleases are ignored, and SemVer-highest *)
 Theorem C03_is_max :
-  forall ign e v, a_tag_of s_latest e = None -> a_latest ign e = Some v ->
+  forall ign e v, a_tag_of tag_latest e = None -> a_latest ign e = Some v ->
   exists pv, parse_version v = Some pv /\ admissible ign pv /\
     forall w pw, In w (a_versions_of e) -> parse_version w = Some pw -> admissible ign pw -> vcmp pw pv <> Gt.
 Proof. exact latest_is_max. Qed.
 
 Theorem C03_none_iff :
-  forall ign e, a_tag_of s_latest e = None ->
+  forall ign e, a_tag_of tag_latest e = None ->
   (a_latest ign e = None <-> forall w pw, In w (a_versions_of e) -> parse_version w = Some pw -> ~ admissible ign pw).
 Proof. exact latest_none_iff. Qed.
 
